@@ -27,14 +27,14 @@ import (
 //	gas      A target selector, B amount selector (GAS.transfer from the executing contract)
 //	deploy   A tiny contract index               calltiny A tiny contract index
 type Op struct {
-	K      string `json:"k"`
-	A      int    `json:"a,omitempty"`
-	B      int    `json:"b,omitempty"`
-	Body   []Op   `json:"body,omitempty"`
-	Catch  []Op   `json:"catch,omitempty"`
-	Fin    []Op   `json:"fin,omitempty"`
-	HasC   bool   `json:"hc,omitempty"`
-	HasF   bool   `json:"hf,omitempty"`
+	K     string `json:"k"`
+	A     int    `json:"a,omitempty"`
+	B     int    `json:"b,omitempty"`
+	Body  []Op   `json:"body,omitempty"`
+	Catch []Op   `json:"catch,omitempty"`
+	Fin   []Op   `json:"fin,omitempty"`
+	HasC  bool   `json:"hc,omitempty"`
+	HasF  bool   `json:"hf,omitempty"`
 }
 
 // Method is one ABI method "m<i>" of a generated contract.
@@ -453,7 +453,7 @@ func compileContract(np *nprog, c int, name string, sender util.Uint160) *asm.Co
 	b.Label("pay").InitSlot(0, 3).Op(opcode.LDARG2, opcode.ISNULL).Jmp(opcode.JMPIFL, "pay_ret")
 	g.ops(pay.ops, tArg2)
 	b.Label("pay_ret").Op(opcode.RET)
-	g.flushSubsPay()
+	g.flushSubs() // subroutines of the callback receive the table as their own argument 0, like all the others
 	ms = append(ms, asm.MethodSpec{Name: manifest.MethodOnNEP17Payment, Label: "pay", Params: 3, Void: true})
 	b.Label("_deploy").InitSlot(0, 2)
 	for _, s := range np.seeds[c] {
@@ -470,10 +470,6 @@ func compileContract(np *nprog, c int, name string, sender util.Uint160) *asm.Co
 	}
 	return ct
 }
-
-// Subroutines of the payment callback receive the table as their own arg 0 (the caller pushes it), so they
-// are compiled exactly like the others.
-func (g *cgen) flushSubsPay() { g.flushSubs() }
 
 func seedValue(s int) []byte { return []byte{'s', byte('0' + s)} }
 
